@@ -237,6 +237,103 @@ def gen_spec(rng, fam, d, ard):
     return s
 
 
+# ---- composition with the PUBLIC operators.  A tree node is one of
+#   ["leaf", spec] | ["+", l, r] (built as l + r) | ["*", l, r] (l * r) | ["scale", s, t] (ScaleKernel(t), outputscale s)
+#   | ["Additive", [t...]] (AdditiveKernel(*ts)) | ["Product", [t...]] (ProductKernel(*ts))
+# and the documented value is the sum / product / scaling of the parts, applied structurally (the
+# model's kobj / op_add / op_mul; theorems c05_operator_add, c05_operator_mul, c05_*_kernel_object).
+STATIONARY = ["rbf", "matern05", "matern15", "matern25", "rq", "periodic", "cosine"]
+
+
+def gen_leaf(rng, d, leaves):
+    b = rng.choice(leaves)
+    return ["leaf", gen_spec(rng, b, d, rng.random() < 0.3 and b in HAS_ARD)]
+
+
+def shapes_depth1():
+    L = ["leaf"]
+    return [L, ["scale", L], ["+", L, L], ["*", L, L]]
+
+
+def shapes_depth2():
+    """every x op y with x, y of depth <= 1 (a sum / product / scaled kernel on EITHER side of + and *), every scaling
+    of a depth-1 shape, and the explicit n-ary constructors over depth-1 shapes"""
+    S1 = shapes_depth1()
+    out = [[op, a, b] for op in "+*" for a in S1 for b in S1]
+    out += [["scale", a] for a in S1[1:]]
+    out += [["Additive", [S1[0], S1[3], S1[2]]], ["Product", [S1[0], S1[2], S1[3]]], ["Product", [S1[2], S1[2]]],
+            ["Additive", [S1[3], S1[1], S1[0]]]]
+    return out
+
+
+def random_shape(rng, depth):
+    if depth == 0 or rng.random() < 0.15:
+        return ["leaf"]
+    op = rng.choice(["+", "*", "+", "*", "scale", "Additive", "Product"])
+    if op in "+*":
+        return [op, random_shape(rng, depth - 1), random_shape(rng, depth - 1)]
+    if op == "scale":
+        return ["scale", random_shape(rng, depth - 1)]
+    return [op, [random_shape(rng, depth - 1) for _ in range(rng.randint(2, 3))]]
+
+
+def fill_shape(rng, shape, d, leaves):
+    op = shape[0]
+    if op == "leaf":
+        return gen_leaf(rng, d, leaves)
+    if op in "+*":
+        return [op, fill_shape(rng, shape[1], d, leaves), fill_shape(rng, shape[2], d, leaves)]
+    if op == "scale":
+        return ["scale", u(rng, 0.2, 3.0), fill_shape(rng, shape[1], d, leaves)]
+    return [op, [fill_shape(rng, t, d, leaves) for t in shape[1]]]
+
+
+def shape_sig(t):
+    op = t[0]
+    if op == "leaf":
+        return "k"
+    if op in "+*":
+        return "(%s%s%s)" % (shape_sig(t[1]), op, shape_sig(t[2]))
+    if op == "scale":
+        return "s" + shape_sig(t[-1])
+    return "%s[%s]" % (op[0], ",".join(shape_sig(x) for x in t[1]))
+
+
+def tree_leaves(t):
+    op = t[0]
+    if op == "leaf":
+        return [t[1]]
+    if op in "+*":
+        return tree_leaves(t[1]) + tree_leaves(t[2])
+    if op == "scale":
+        return tree_leaves(t[2])
+    return [l for x in t[1] for l in tree_leaves(x)]
+
+
+def compose_spec(rng, shape, d, leaves=None):
+    tree = fill_shape(rng, shape, d, leaves or SIMPLE)
+    return dict(fam="compose", d=d, ard=False, tree=tree, sig=shape_sig(tree), sub=tree_leaves(tree))
+
+
+def build_tree(t):
+    """-> (gpytorch kernel built with the public operators / constructors, term of Models.C05_kernels.kobj built with
+    the model's operators op_add / op_mul in the same way)"""
+    op = t[0]
+    if op == "leaf":
+        m, term = build(t[1])
+        return m, "(OLeaf %s)" % term
+    if op in "+*":
+        (a, ta), (b, tb) = build_tree(t[1]), build_tree(t[2])
+        return ((a + b), "(op_add %s %s)" % (ta, tb)) if op == "+" else ((a * b), "(op_mul %s %s)" % (ta, tb))
+    if op == "scale":
+        b, tb = build_tree(t[2])
+        m = K.ScaleKernel(b); m.outputscale = t[1]
+        return m, "(OScale %s %s)" % (q1(m.outputscale), tb)
+    parts = [build_tree(x) for x in t[1]]
+    m = (K.AdditiveKernel if op == "Additive" else K.ProductKernel)(*[p[0] for p in parts])
+    return m, "(%s [%s])" % ("OAdd" if op == "Additive" else "OMul", "; ".join(p[1] for p in parts))
+
+
 def in_dim(spec):
     if spec["fam"] == "hamming":
         return spec["T"] * spec["vocab"]
@@ -337,6 +434,8 @@ def build(spec, **kw):
     if f == "sumint":
         b, bt = build(spec["sub"][0])
         return SumInteraction(b, d, spec["M"]), "(KNG %s %s)" % (qv([1.0] * spec["M"]), bt)
+    if f == "compose":
+        return build_tree(spec["tree"])
     if f == "active":
         b, bt = build(spec["sub"][0], active_dims=tuple(spec["dims"]))
         return b, "(KActive %s %s)" % (C.nat_list(spec["dims"]), bt)
@@ -395,6 +494,212 @@ def gen_points(rng, spec, n, avoid=()):
     return rows
 
 
+# --------------------------------------------------------------------------- input geometry
+# The distance-based kernels are evaluated through kernels.kernel.sq_dist / dist / covar_dist, which centre the inputs
+# before the quadratic expansion |a|^2 + |b|^2 - 2 a.b.  Whether that is done right is only visible away from the origin
+# (relative to the lengthscale), so these families are also run on
+#   offset : rows + a per-dimension offset +-2^20 (1 + j/4)        scaled : rows * 1000, length parameters * 1000
+#   neardup: x2 shares rows with x1 up to 2^-20 in one coordinate   offset+neardup
+# All inputs stay exactly representable (the model gets the same rationals).  The comparison threshold is
+# ATOL + RTOL |k| + KB * (first-order bound on the float64 error of a CENTRED implementation), computed per entry from
+#   e_in  = effect on r^2 of rounding z = fl(x / l) (computed exactly, with rationals: 0 when l is a power of two),
+#   e_c   = (4 (d + 3) + 2) eps diam^2, the quadratic expansion on centred coordinates (diam = largest scaled distance
+#           between rows of the call; the centre lies in their convex hull),
+# pushed through the kernel (|dk/dr^2| for functions of r^2; Lipschitz constant in r times min(sqrt(e), e / r) for
+# functions of r) and through sums / products / scalings.  It does not grow with the offset, whereas an uncentred
+# expansion is off by eps |z|^2 ~ 1e-4 at offset 2^20.
+GEOMS = ["offset", "scaled", "neardup", "offset+neardup"]
+GEOM_FAMS = ["rbf", "matern05", "matern15", "matern25", "rq", "periodic", "cosine", "pp0", "pp1", "pp2", "pp3", "scale",
+             "compose", "rbfgrad", "m52grad", "rbfgg"]
+EPS64 = 2.220446049250313e-16
+KB = 16.0
+SCALE_S = 1000.0
+
+
+def apply_geom(rng, geom, spec, case):
+    d = in_dim(spec)
+    x1, x2, x2b = ([list(r) for r in case[k]] for k in ("x1", "x2", "x2b"))
+    if "neardup" in geom:
+        for j in range(0, len(x2), 2):
+            x2[j] = list(x1[j % len(x1)])
+            x2[j][rng.randrange(d)] += 2.0 ** -20
+        x2b = [list(r) for r in x1]
+        for r in x2b:
+            r[rng.randrange(d)] -= 2.0 ** -18
+    if "offset" in geom:
+        off = [rng.choice([-1, 1]) * 2.0 ** 20 * (1 + rng.randrange(4) / 4.0) for _ in range(d)]
+        x1, x2, x2b = ([[v + o for v, o in zip(r, off)] for r in X] for X in (x1, x2, x2b))
+    if "scaled" in geom:
+        x1, x2, x2b = ([[v * SCALE_S for v in r] for r in X] for X in (x1, x2, x2b))
+    return dict(x1=x1, x2=x2, x2b=x2b, geom=geom)
+
+
+def scale_spec(spec, S):
+    """the same kernel with every length parameter (lengthscale, period) multiplied by S"""
+    s = dict(spec)
+    if "l" in s:
+        s["l"] = [v * S for v in s["l"]]
+    if "p" in s:
+        s["p"] = [v * S for v in s["p"]] if isinstance(s["p"], list) else s["p"] * S
+    if "sub" in s:
+        s["sub"] = [scale_spec(t, S) for t in s["sub"]]
+    if "tree" in s:
+        def st(t):
+            if t[0] == "leaf":
+                return ["leaf", scale_spec(t[1], S)]
+            if t[0] in "+*":
+                return [t[0], st(t[1]), st(t[2])]
+            if t[0] == "scale":
+                return ["scale", t[1], st(t[2])]
+            return [t[0], [st(x) for x in t[1]]]
+        s["tree"] = st(s["tree"])
+        s["sub"] = tree_leaves(s["tree"])
+    return s
+
+
+def _frac(v):
+    from fractions import Fraction
+    return Fraction(v)
+
+
+def _pp_lipschitz(q, j):
+    def f(r):
+        if q == 0:
+            P = 1.0
+        elif q == 1:
+            P = (j + 1) * r + 1
+        elif q == 2:
+            P = 1 + (j + 2) * r + (j * j + 4 * j + 3) / 3.0 * r * r
+        else:
+            P = 1 + (j + 3) * r + (6 * j * j + 36 * j + 45) / 15.0 * r * r + (j ** 3 + 9 * j * j + 23 * j + 15) / 15.0 * r ** 3
+        return max(0.0, 1 - r) ** (j + q) * P
+    N = 2000
+    return 1.5 * max(abs(f((i + 1) / N) - f(i / N)) * N for i in range(N)) + 1.0
+
+
+def _ell(par, d):
+    v = [float(t) for t in par.detach().reshape(-1).tolist()]
+    return v * d if len(v) == 1 else v
+
+
+def _scaled_terms(xa, xb, ell, exact_div=True):
+    """per pair (i, j): dict(es=[per-dimension bound on the error of the squared scaled difference], r2=[per-dimension
+    squared scaled difference], u=[|x_m - y_m| / l_m^2], w=[bound on the error of (z_m - z'_m) / l_m])"""
+    import math
+    d = len(ell)
+    rows = [tuple(r) for r in xa] + [tuple(r) for r in xb]
+    z = {}
+    for r in set(rows):
+        zz = []
+        for m in range(d):
+            ex = _frac(r[m]) / _frac(ell[m])
+            if exact_div:
+                dz = abs(_frac(r[m] / ell[m]) - ex)          # the rounding the float division really commits
+            else:
+                dz = 2 * _frac(EPS64) * abs(ex)              # divisor itself is a rounded quantity (period / pi)
+            zz.append((float(ex), float(dz)))
+        z[r] = zz
+    diam2 = [0.0] * d
+    for a in rows:
+        for b in rows:
+            for m in range(d):
+                diam2[m] = max(diam2[m], (z[tuple(a)][m][0] - z[tuple(b)][m][0]) ** 2)
+    res = []
+    for a in xa:
+        line = []
+        for b in xb:
+            za, zb = z[tuple(a)], z[tuple(b)]
+            es, r2, uu, ww = [], [], [], []
+            for m in range(d):
+                dl = abs(float((_frac(a[m]) - _frac(b[m])) / _frac(ell[m])))
+                dd = za[m][1] + zb[m][1]
+                es.append(2 * (dl + dd) * dd)
+                r2.append(dl * dl)
+                uu.append(dl / ell[m])
+                ww.append(dd / ell[m] + EPS64 * dl / ell[m])
+            line.append(dict(es=es, r2=r2, u=uu, w=ww))
+        res.append(line)
+    return res, diam2
+
+
+def _r_err(es, r):
+    import math
+    return min(math.sqrt(es), es / r) if r > 0 else math.sqrt(es)
+
+
+def geom_tolerance(kern, xa, xb):
+    """-> (matrix of bounds e[I][J] on the float64 error of a centred implementation, bound on |entry|).  Rows / columns
+    in the per-point interleaved layout for the derivative kernels."""
+    import math
+    if isinstance(kern, K.ScaleKernel):
+        e, s = geom_tolerance(kern.base_kernel, xa, xb)
+        o = float(kern.outputscale)
+        return [[o * v + 2 * EPS64 * o * s for v in r] for r in e], o * s
+    if isinstance(kern, (K.AdditiveKernel, K.ProductKernel)):
+        parts = [geom_tolerance(k, xa, xb) for k in kern.kernels]
+        n1, n2 = len(parts[0][0]), len(parts[0][0][0])
+        if isinstance(kern, K.AdditiveKernel):
+            sup = sum(p[1] for p in parts)
+            return [[sum(p[0][i][j] for p in parts) + len(parts) * EPS64 * sup for j in range(n2)] for i in range(n1)], sup
+        sup = math.prod(p[1] for p in parts)
+        return [[sum(p[0][i][j] * math.prod(q[1] for q in parts if q is not p) for p in parts) + len(parts) * EPS64 * sup
+                 for j in range(n2)] for i in range(n1)], sup
+    if isinstance(kern, K.ConstantKernel):
+        c = abs(float(kern.constant))
+        return [[0.0] * len(xb) for _ in xa], c
+    d = len(xa[0])
+    periodic = isinstance(kern, K.PeriodicKernel)
+    if periodic:
+        ell = [p / math.pi for p in _ell(kern.period_length, d)]
+    elif isinstance(kern, K.CosineKernel):
+        ell = _ell(kern.period_length, d)
+    else:
+        ell = _ell(kern.lengthscale, d)
+    T, diam2 = _scaled_terms(xa, xb, ell, exact_div=not periodic)
+    cq = 4 * (d + 3) + 2
+
+    def es_of(t):
+        return sum(t["es"]) + cq * EPS64 * sum(diam2)
+
+    def r_of(t):
+        return math.sqrt(sum(t["r2"]))
+    if periodic:
+        lam = _ell(kern.lengthscale, d)
+        return [[sum(6.0 / lam[m] * (t["es"][m] + cq * EPS64 * diam2[m]) for m in range(d)) for t in row] for row in T], 1.0
+    multi = isinstance(kern, (K.RBFKernelGrad, K.RBFKernelGradGrad, K.Matern52KernelGrad))
+    if multi:
+        gg = isinstance(kern, K.RBFKernelGradGrad)
+        p = (2 * d + 1) if gg else (d + 1)
+        order = lambda c: 0 if c == 0 else (1 if c <= d else 2)  # noqa: E731
+        m52 = isinstance(kern, K.Matern52KernelGrad)
+        out = [[0.0] * (len(xb) * p) for _ in range(len(xa) * p)]
+        sup = 1.0
+        for i, row in enumerate(T):
+            for j, t in enumerate(row):
+                es = es_of(t)
+                ek = 4.0 * _r_err(es, r_of(t)) if m52 else 0.5 * es
+                A = max(u_ + 1.0 / l_ for u_, l_ in zip(t["u"], ell))
+                W = max(t["w"])
+                for a in range(p):
+                    for b in range(p):
+                        n = order(a) + order(b)
+                        amp = 10.0 * max(1.0, A) ** n
+                        e = ek if n == 0 else amp * (ek + n * W / max(1.0, A) + n * EPS64)
+                        out[i * p + a][j * p + b] = e
+                        sup = max(sup, amp)
+        return out, sup
+    if isinstance(kern, (K.RBFKernel, K.RQKernel)):
+        return [[0.5 * es_of(t) for t in row] for row in T], 1.0
+    if isinstance(kern, K.MaternKernel):
+        return [[_r_err(es_of(t), r_of(t)) for t in row] for row in T], 1.0
+    if isinstance(kern, K.PiecewisePolynomialKernel):
+        L = _pp_lipschitz(kern.q, d // 2 + kern.q + 1)
+        return [[L * _r_err(es_of(t), r_of(t)) for t in row] for row in T], 1.0
+    if isinstance(kern, K.CosineKernel):
+        return [[math.pi * _r_err(es_of(t), r_of(t)) for t in row] for row in T], 1.0
+    raise ValueError("no rounding bound for %s" % type(kern).__name__)
+
+
 CTXS = ["default", "no_grad", "x_grad", "trace"]
 CALLS = ["full", "sym", "diag", "diag2"]
 
@@ -433,7 +738,9 @@ def outputs_per_point(spec):
 
 
 def coq_case(term, spec, xa, xb):
-    if spec["fam"] not in MULTI:
+    if spec["fam"] == "compose":
+        term = "(JO %s)" % term
+    elif spec["fam"] not in MULTI:
         term = "(JK %s)" % term
     return "(%s, %s, %s)" % (term, qm(xa), qm(xb))
 
@@ -454,6 +761,8 @@ def variant(spec):
         return "%s(%s)" % (f, sub)
     if f.startswith("pp"):
         return "pp:q=%d" % spec["q"]
+    if f == "compose":
+        return "compose:" + spec["sig"]
     return f
 
 
@@ -467,17 +776,81 @@ def uses_r(spec):
     return any(uses_r(s) for s in spec.get("sub", []))
 
 
-def compare(out, spec, case, call, ctx, got, model):
-    """got: impl tensor; model: matrix of mpf for the call's (x1, x2) pair"""
+def leaf_mag(spec, x, y):
+    """bound on |k(x, y)| of a simple kernel from its documented form (1 for the normalised stationary ones)"""
+    f = spec["fam"]
+    if f == "const":
+        return abs(spec["c"]) * 1.01
+    if f == "linear":
+        v = spec["v"] * (len(x) if len(spec["v"]) == 1 else 1)
+        return sum(vv * abs(a * b) for vv, a, b in zip(v, x, y)) * 1.01 + 1e-300
+    if f == "poly":
+        return (sum(abs(a * b) for a, b in zip(x, y)) + spec["c"]) ** spec["pw"] * 1.01
+    return 1.0
+
+
+def tree_of(spec):
+    f = spec["fam"]
+    if f == "compose":
+        return spec["tree"]
+    if f in ("sum", "prod"):
+        return ["Additive" if f == "sum" else "Product", [["leaf", t] for t in spec["sub"]]]
+    if f == "scale":
+        return ["scale", spec["s"], ["leaf", spec["sub"][0]]]
+    return ["leaf", spec]
+
+
+def sens_mag(t, x, y):
+    """(sensitivity of the composed value to an absolute error in the value of its r-dependent leaves, bound on the
+    magnitude of the composed value) at the pair (x, y): sums add, products multiply by the siblings' magnitudes"""
+    op = t[0]
+    if op == "leaf":
+        return (1.0 if uses_r(t[1]) else 0.0), leaf_mag(t[1], x, y)
+    if op == "scale":
+        s_, m_ = sens_mag(t[2], x, y)
+        return abs(t[1]) * 1.01 * s_, abs(t[1]) * 1.01 * m_
+    parts = [sens_mag(c, x, y) for c in (t[1:3] if op in "+*" else t[1])]
+    if op in ("+", "Additive"):
+        return sum(p[0] for p in parts), sum(p[1] for p in parts)
+    import math
+    return (sum(p[0] * math.prod(q[1] for k, q in enumerate(parts) if k != i) for i, p in enumerate(parts)),
+            math.prod(p[1] for p in parts))
+
+
+MARGIN = {}
+
+
+def _margin(case, triples):
+    """largest |impl - documented| / threshold seen per geometry (reported in the evidence)"""
+    g = case.get("geom", "origin")
+    for a, b, t in triples:
+        r = abs(float(a) - float(b)) / (t + RTOL * abs(float(b)))
+        if r == r and MARGIN.get(g, 0.0) < r <= 1.0:     # (entries that pass: how close they come)
+            MARGIN[g] = r
+
+
+def compare(out, spec, case, call, ctx, got, model, tolmat=None):
+    """got: impl tensor; model: matrix of mpf for the call's (x1, x2) pair; tolmat: per-entry rounding bound of the
+    non-origin geometries (geom_tolerance)"""
     p = outputs_per_point(spec)
     xa = case["x1"]
     xb = {"full": case["x2"], "sym": case["x1"], "diag": case["x1"], "diag2": case["x2b"]}[call]
     loose = uses_r(spec)
 
     def atol(I, J):
-        return ATOL_COINCIDENT_R if loose and xa[I // p] == xb[J // p] else ATOL
-    key = "value:%s:%s:%s%s" % (variant(spec), call, ctx, ":ard" if spec["ard"] else "")
+        if tolmat is not None:
+            return ATOL + KB * tolmat[I][J]
+        if loose and xa[I // p] == xb[J // p]:
+            # the r-dependent leaves are each off by up to ATOL_COINCIDENT_R; inside a product that is multiplied by the
+            # magnitude of the other factors (e.g. a polynomial kernel of size 100)
+            return ATOL_COINCIDENT_R * max(1.0, sens_mag(tree, xa[I // p], xb[J // p])[0])
+        return ATOL
+    tree = tree_of(spec)
+    key = "value:%s:%s:%s%s%s" % (variant(spec), call, ctx, ":ard" if spec["ard"] else "",
+                                  (":geom=" + case["geom"]) if case.get("geom") else "")
     desc = dict(spec=spec, case=case, call=call, ctx=ctx)
+    if tolmat is not None:
+        desc["max_threshold"] = ATOL + KB * max(max(r) for r in tolmat)
     if call in ("diag", "diag2"):
         want = [model[i][i] for i in range(len(model))]
         g = got.reshape(-1).tolist()
@@ -486,6 +859,7 @@ def compare(out, spec, case, call, ctx, got, model):
                      impl=g, model=[float(v) for v in want])
             return False
         bad = [(i, g[i], float(want[i])) for i in range(len(want)) if not C.close(g[i], want[i], atol(i, i), RTOL)]
+        _margin(case, [(g[i], want[i], atol(i, i)) for i in range(len(want))])
     else:
         rows, cols = len(model), len(model[0]) if model else 0
         if tuple(got.shape) != (rows, cols):
@@ -494,6 +868,7 @@ def compare(out, spec, case, call, ctx, got, model):
         g = got.tolist()
         bad = [((i, j), g[i][j], float(model[i][j])) for i in range(rows) for j in range(cols)
                if not C.close(g[i][j], model[i][j], atol(i, j), RTOL)]
+        _margin(case, [(g[i][j], model[i][j], atol(i, j)) for i in range(rows) for j in range(cols)])
     if bad:
         out.fail(key, "kernel value differs from the documented formula at entry %s: impl %.12g, documented %.12g "
                  "(%d of %d entries differ; outputs per point = %d)" % (bad[0][0], bad[0][1], bad[0][2], len(bad),
@@ -527,6 +902,37 @@ def gen_cases(rng, tier):
                         x2[rng.randrange(n2)] = list(x1[rng.randrange(n1)])
                     x2b = gen_points(rng, spec, n1, avoid=x1)
                     cases.append((spec, dict(x1=x1, x2=x2, x2b=x2b)))
+
+    def points_for(spec, nmax):
+        n1 = rng.randint(1, nmax)
+        n2 = rng.choice([k for k in range(1, nmax + 1) if k != n1])
+        x1 = gen_points(rng, spec, n1)
+        x2 = gen_points(rng, spec, n2)
+        if rng.random() < 0.4:
+            x2[rng.randrange(n2)] = list(x1[rng.randrange(n1)])
+        return dict(x1=x1, x2=x2, x2b=gen_points(rng, spec, n1, avoid=x1))
+    # compositions with the public operators: every shape of depth <= 2 (sums / products / scalings on either side of
+    # + and *, explicit n-ary constructors), random shapes of depth 3
+    shapes = shapes_depth1()[1:] + shapes_depth2() + [random_shape(rng, 3) for _ in range(10 if tier == "quick" else 60)]
+    for rep in range(1 if tier == "quick" else 4):
+        for shape in shapes:
+            spec = compose_spec(rng, shape, rng.randint(1, 3))
+            cases.append((spec, points_for(spec, 3)))
+    # input geometries for the kernels that go through the shared distance helpers
+    for fam in GEOM_FAMS:
+        for geom in GEOMS:
+            for _ in range(1 if tier == "quick" else 4):
+                d = rng.randint(1, 3)
+                if fam == "compose":
+                    spec = compose_spec(rng, rng.choice(shapes), d, leaves=STATIONARY + ["const"])
+                elif fam == "scale":
+                    spec = dict(fam="scale", d=d, ard=False, s=u(rng, 0.2, 3.0), sub=[gen_spec(rng, rng.choice(STATIONARY[:6] + ["pp2"]), d, rng.random() < 0.5)])
+                else:
+                    spec = gen_spec(rng, fam, d, rng.random() < 0.5 and fam in HAS_ARD)
+                case = apply_geom(rng, geom, spec, points_for(spec, 2 if (fam == "rbfgg" and d == 3) else 3))
+                if "scaled" in geom:
+                    spec = scale_spec(spec, SCALE_S)
+                cases.append((spec, case))
     return cases
 
 
@@ -566,13 +972,19 @@ def check_one(out, spec, case, kern, models, calls=CALLS, ctxs=None, record=True
         if spec["fam"] == "sumint" and call != "sym":
             continue                      # documented for D x N x N stacks of covariance matrices
         model = models[{"full": "full", "sym": "sym", "diag": "sym", "diag2": "d2"}[call]]
+        tolmat = None
+        if case.get("geom"):
+            xb = {"full": case["x2"], "sym": case["x1"], "diag": case["x1"], "diag2": case["x2b"]}[call]
+            tolmat = geom_tolerance(kern, case["x1"], xb)[0]
         for ctx in ctxs:
             if record:
                 flat = [float(v) for r in model for v in r]
                 nontrivial = spec["fam"] == "const" or (len(flat) > 1 and max(flat) - min(flat) > 1e-9) or len(flat) == 1
                 out.case(dict(fam=variant(spec), d=spec["d"], ard=spec["ard"], n1=len(case["x1"]), n2=len(case["x2"]),
-                              call=call, ctx=ctx, x1=case["x1"][0]), nontrivial, label="fam=" + spec["fam"])
+                              call=call, ctx=ctx, x1=case["x1"][0], geom=case.get("geom", "origin")), nontrivial,
+                         label="fam=" + spec["fam"])
                 out.count("call=" + call); out.count("ctx=" + ctx); out.count("d=%d" % spec["d"])
+                out.count("geom=" + case.get("geom", "origin"))
             try:
                 got = impl_eval(kern, case, call, ctx)
             except Exception as e:
@@ -580,7 +992,7 @@ def check_one(out, spec, case, kern, models, calls=CALLS, ctxs=None, record=True
                          "kernel call raised %r" % (e,), dict(spec=spec, case=case, call=call, ctx=ctx))
                 ok = False
                 continue
-            ok = compare(out, spec, case, call, ctx, got, model) and ok
+            ok = compare(out, spec, case, call, ctx, got, model, tolmat) and ok
     return ok
 
 
@@ -591,7 +1003,7 @@ def shrink(out, spec, case, kern, term):
         return
     for i, a in enumerate(case["x1"]):
         for b in case["x2"] + case["x1"]:
-            small = dict(x1=[a], x2=[b], x2b=[b])
+            small = dict(x1=[a], x2=[b], x2b=[b], **({"geom": case["geom"]} if case.get("geom") else {}))
             tmp = C.Outcome("C05", "quick", 0)
             try:
                 models = run_models("C05_shrink", [(spec, small, term)])[0]
@@ -621,12 +1033,20 @@ def run(out, ctx):
                 "kernels), hyper-parameters uniform in range and read back exactly, small dyadic inputs on the "
                 "documented domain; each under calls {K(x1,x2), K(x1), K(x1,diag), K(x1,x2',diag)} x contexts "
                 "{default (parameter grads: fast path saving the backward term), no_grad (in-place fast path), "
-                "x.requires_grad (generic path), trace_mode (generic path)}; non-trivial = the documented matrix is "
-                "not constant")
+                "x.requires_grad (generic path), trace_mode (generic path)}; compositions built with the public operators "
+                "(every shape of depth <= 2 over {k, ScaleKernel(k), k+k, k*k} on either side of + and *, explicit "
+                "AdditiveKernel / ProductKernel, random shapes of depth 3) against the structural sum / product / scaling "
+                "of the documented parts; the distance-based families also on inputs far from the origin (2^20), scaled "
+                "by 1000 and with nearly coincident rows (thresholds from a rounding bound of the centred computation); "
+                "non-trivial = the documented matrix is not constant")
     out.exhaustive = False
     out.extra["tolerances"] = {"atol": ATOL, "rtol": RTOL, "mpmath_digits": mpmath.mp.dps,
                                "atol_coincident_rows_r_kernels": ATOL_COINCIDENT_R}
     out.extra["gskl_doc_form"] = "exp(-a d)" if gskl_doc_form() else "exp(-d/a)"
+    out.extra["geometries"] = {"families": GEOM_FAMS, "geometries": GEOMS,
+                               "threshold": "ATOL + RTOL |k| + %g * geom_tolerance (centred-computation rounding bound, "
+                                            "independent of the offset)" % KB}
+    MARGIN.clear()
     shrunk = set()
     # (shrinking costs one coqc start per candidate pair: only spent on failures that are not recorded findings)
     known_keys = [k["key"] for k in C.load_known() if k.get("property") == "C05" and k.get("status", "known") == "known"]
@@ -637,8 +1057,11 @@ def run(out, ctx):
         if fresh and variant(spec) not in shrunk and len(shrunk) < 4:
             shrunk.add(variant(spec))
             shrink(out, spec, case, kern, term)
+    out.extra["largest_discrepancy_over_threshold"] = {k: float("%.3g" % v) for k, v in MARGIN.items()}
     out.tested_not_proved = [
-        "agreement of torch float64 arithmetic with the exact real formula (rtol 1e-10)",
+        "agreement of torch float64 arithmetic with the exact real formula (rtol 1e-10; at the non-origin geometries plus "
+        "the first-order rounding bound of a centred distance computation, see geom_tolerance - the bound itself is not "
+        "proved; over the reals the centring is immaterial: c05_sq_dist_any_adjustment)",
         "SpectralDelta / Cylindrical / Arc / SpectralMixture formulas have no docstring equation: the model follows "
         "the cited construction as worded in the class docstrings and the property text"]
 
@@ -651,11 +1074,15 @@ def replay(path):
     models = run_models("C05_replay", [(spec, case, term)])[0]
     model = models[{"full": "full", "sym": "sym", "diag": "sym", "diag2": "d2"}[call]]
     got = impl_eval(kern, case, call, ctx)
-    print("kernel", variant(spec), "call", call, "ctx", ctx)
+    tolmat = None
+    if case.get("geom"):
+        xb = {"full": case["x2"], "sym": case["x1"], "diag": case["x1"], "diag2": case["x2b"]}[call]
+        tolmat = geom_tolerance(kern, case["x1"], xb)[0]
+    print("kernel", variant(spec), "call", call, "ctx", ctx, "geometry", case.get("geom", "origin"))
     print("coq term", term)
     print("impl ", got.tolist())
     print("model", [[float(v) for v in r] for r in model])
     out = C.Outcome("C05", "quick", 0)
-    compare(out, spec, case, call, ctx, got, model)
+    compare(out, spec, case, call, ctx, got, model, tolmat)
     print("FAILS" if out.failures else "agrees")
     return 1 if out.failures else 0
